@@ -90,7 +90,7 @@ Definition count_run (l : list item) (r : N) : nat :=
    nested graphs (hypothesis of state_lookup_well_typed), 222 its conclusion evaluated: some
    instance does not see the object made by the generator of the nearest enclosing graph that
    declares state, 223 the state modifier was not applied exactly once to every checkpointed
-   state *)
+   state, 224 conclusion of one_run_per_object evaluated *)
 Definition check_lts (c : ccase) : N :=
   let f := c_forest c in
   match drive f (c_x0 c) (c_runs c) (c_log c) with
@@ -126,7 +126,8 @@ Definition check_lts (c : ccase) : N :=
     if negb (gens_ok g) then 220 else
     if negb (nest_ok f) then 221 else
     if negb (lookup_ok f g) then 222 else
-    if negb (c_failing c || must_fail_t f (c_gty c) (c_nty c)) && negb (mods_ok (c_modifier c) (c_log c)) then 223 else 0
+    if negb (c_failing c || must_fail_t f (c_gty c) (c_nty c)) && negb (mods_ok (c_modifier c) (c_log c)) then 223 else
+    if negb (run_iso_ok g) then 224 else 0
   end.
 
 Definition check_spec (c : ccase) : N :=     (* 0 = agree, otherwise the first check that failed *)
